@@ -78,6 +78,28 @@ def ref_decl(n):
     return None
 
 
+def unwrap_view(n):
+    """peel conversions of a tensor into one of its map/view types (same storage) and value-preserving casts"""
+    n = skip(n)
+    for _ in range(8):
+        if n is None:
+            return n
+        if n["k"] == "construct" and len(n.get("c", ())) == 1 and strip_targs(n.get("cls", "")) in ("nano::tensor_t", "Eigen::Map", "Eigen::Ref"):
+            n = skip(n["c"][0])
+        elif n["k"] == "cast" and n.get("c"):
+            n = skip(n["c"][0])
+        elif n["k"] == "call" and n.get("ck") == "mem" and not args(n) and callee(n).split("::")[-1] in ("vector", "tensor", "array", "matrix"):
+            n = skip(n["c"][0])
+        else:
+            break
+    return n
+
+
+def ref_decl_v(n):
+    """like ref_decl, looking through tensor view conversions"""
+    return ref_decl(unwrap_view(n))
+
+
 def is_ref_to(n, d):
     return ref_decl(n) == d
 
